@@ -104,10 +104,10 @@ def mesgScopeB (m : Message) : Bool :=
   decide (m.num < 65536) && m.fields.all (fieldScopeB m) && nodupB (m.fields.map fieldNumOf) && targetsExact m
 
 /-- one field description within scope: name non-empty, not "unknown…", not the name of a sub-field of the profile
-(names unique also against the native names), name and units without separator and within the alphabet the writer keeps -/
+(names unique also against the native names), name and units within the alphabet the writer keeps (`|` joins the parts
+of a name; separators and spaces are fine: `writeCell` quotes the cell — KF-C19-2, `C19_csv_quoting_roundtrip`) -/
 def descScopeB (d : Desc) : Bool :=
-  !d.name.isEmpty && !isPrefixOf' unknownTxt d.name && !allSubNames.contains d.name &&
-  commasIn d.name == 0 && commasIn d.units == 0 && d.name.all keepByte && d.units.all keepByte    -- `|` joins the parts of a name
+  !d.name.isEmpty && !isPrefixOf' unknownTxt d.name && !allSubNames.contains d.name && d.name.all keepByte && d.units.all keepByte
 
 /-- a developer field of message `m`, the descriptions `cur` of the SAME file seen so far: described there, the name not
 that of a native field of the message, the value of the described base type and in normal form -/
